@@ -159,7 +159,7 @@ def problems(seed, n, tier):
 
 NET_QUERIES = ["SOLVE", "RES", "PVV", "M0", "M0APOST", "DOF", "NULL", "NUNK", "NOBS", "CONFCOEF", "CONNECTED",
                "QXX", "QBB", "STDEVOBS", "WCOEF", "STDEVRES", "STUDRES", "OBSCTRL", "LINDEP", "UNKSTDEV", "ELLIPSE"]
-NET_STATE = ["SETALG", "UPDATE", "SIGMAACT", "CONFPR"]
+NET_STATE = ["SETALG", "UPDATE", "SIGMAACT", "CONFPR", "APRIORI", "TOLABS"]
 
 
 def net_history(rng, nunk, nobs, nell, length):
@@ -202,6 +202,7 @@ def network_histories(ck, tier, seed):
     """history monitor on live LocalNetwork objects (nethistdrv): generated networks x 4 algorithms x random
     histories; every answer compared with a freshly parsed and prepared network given the same settings"""
     import os
+    from scipy import stats as scipy_stats
     from .. import netgen, netlevel
     runner.build("san", targets=["nethistdrv"])
     exe = runner.binpath("san", "nethistdrv")
@@ -223,6 +224,11 @@ def network_histories(ck, tier, seed):
             for h in range(nh):
                 cmds = net_history(rng, nunk, nobs, nell, int(rng.integers(3, 15)))
                 jobs.append((i, net.kind, feats, alg, path, cmds))
+        # directed: every setting that a derived statistic depends on is changed between two readings of it
+        jobs.append((i, net.kind, feats, lsq.ALGS[i % 4], path,
+                     ["CONFCOEF", "M0", "CONFPR 0.9", "CONFCOEF", "SIGMAACT apriori", "M0", "CONFCOEF", "UNKSTDEV 1",
+                      "CONFPR 0.5", "CONFCOEF", "SIGMAACT aposteriori", "M0", "CONFCOEF", "UNKSTDEV 1", "CONFPR 0.95",
+                      "CONFCOEF", "STUDRES 1", "APRIORI 3.5", "M0", "STDEVOBS 1", "SIGMAACT apriori", "M0", "STDEVOBS 1"]))
 
     def run_hist(path, alg, cmds):
         script = []
@@ -247,6 +253,17 @@ def network_histories(ck, tier, seed):
                 msg = compare(a, b, 1e-9)
                 if msg:
                     return None, (k, msg)
+                if c == "CONFCOEF" and a[0] == "OK" and len(a[1]) == 4:
+                    # independent oracle (scipy): the fresh object shares process-wide state with the live one
+                    coef, dof, p, apost = a[1]
+                    ref = None
+                    if apost and dof > 0:
+                        ref = float(scipy_stats.t.ppf(1 - (1 - p) / 2, dof)); tol = 5e-4 * ref
+                    elif not apost:
+                        ref = float(scipy_stats.norm.ppf(1 - (1 - p) / 2)); tol = 1e-6 * ref
+                    if ref is not None and abs(coef - ref) > tol:
+                        return None, (k, "confidence coefficient %.9g is not the quantile %.9g for probability %g, dof %d (%s)" % (
+                            coef, ref, p, dof, "Student" if apost else "normal"))
                 pos += 2
             else:
                 if pos >= len(reps):
